@@ -160,7 +160,7 @@ pub fn alphabet_c13(rx: (f64, f64), range: f64, tier: Tier) -> Vec<Ev> {
     // where NL = 1 (|lat| > 87) the longitude of a single report is unconstrained, so a displacement along
     // the parallel probes the 100 km jump rule at +-0.5 km through ordinary consistent reports
     if crate::cprref::nl(pts[0].0) == 1 {
-        for (name, km) in [("pjump99.5", 99.5), ("pjump100.5", 100.5)] {
+        for (name, km) in [("pjump99.5", 99.5), ("pjump100.5", 100.5), ("pjump99.92", 99.92), ("pjump100.08", 100.08)] {
             let (mut lo, mut hi) = (0.0f64, 90.0f64);
             for _ in 0..60 {
                 let mid = (lo + hi) / 2.0;
